@@ -492,13 +492,17 @@ Section Isect.
     end.
   Definition prem (p d : list K) : list K := prem_aux (S (length p)) p (pstrip d).
   Definition pneg (p : list K) : list K := map (opp N) p.
-  (* p0, p1, -rem(p0,p1), ... until the zero polynomial *)
+  (* division by |leading coefficient|: a positive factor, signs unchanged;
+     keeps the rational coefficients of the remainder sequence small *)
+  Definition pnormal (p : list K) : list K :=
+    match p with [] => [] | c :: _ => map (fun x => x / nabs N c) p end.
+  (* p0, p1, -rem(p0,p1), ... until the zero polynomial (each member normalised) *)
   Fixpoint sturm_chain (fuel : nat) (p0 p1 : list K) : list (list K) :=
     match fuel with
     | O => [p0]
     | S f => match pstrip p1 with
              | [] => [p0]
-             | p1' => p0 :: sturm_chain f p1' (pneg (prem p0 p1'))
+             | p1' => let p1n := pnormal p1' in p0 :: sturm_chain f p1n (pneg (prem p0 p1n))
              end
     end.
   Definition sgn (x : K) : Z := if ltb N x (zero N) then (-1)%Z else if ltb N (zero N) x then 1%Z else 0%Z.
@@ -512,14 +516,19 @@ Section Isect.
   Definition variations (l : list Z) : nat := variations_from 0 l.
   Definition var_at (ch : list (list K)) (x : K) : nat := variations (map (fun p => sgn (peval N p x)) ch).
   (* Tarski query of q on the zeros of p in (0,1):  #{p=0,q>0} - #{p=0,q<0}
-     (p(0) p(1) <> 0);  q = 1 gives the number of distinct roots *)
+     (p(0) p(1) <> 0);  q = 1 gives the number of distinct roots.  The signed
+     remainder sequence starts from p and (p' q) mod p: only the signs of q at
+     the zeros of p matter, so q and p' q are first reduced modulo p (this
+     keeps the degrees, hence the rational coefficients, small) *)
   Definition tarski01 (p q : list K) : Z :=
-    let ch := sturm_chain (length p + length q + 2) (pstrip p) (pmul N (pderiv N (pstrip p)) q) in
+    let p := pnormal (pstrip p) in
+    let q1 := prem (pmul N (pderiv N p) (pnormal (prem q p))) p in
+    let ch := sturm_chain (length p + 2) p q1 in
     (Z.of_nat (var_at ch (zero N)) - Z.of_nat (var_at ch (one N)))%Z.
   Definition sturm_count (p : list K) : Z := tarski01 p [one N].
   (* gcd(p, q) is a non-zero constant *)
   Definition coprime (p q : list K) : bool :=
-    match last (sturm_chain (length p + length q + 2) (pstrip p) q) [] with
+    match last (sturm_chain (length p + 2) (pstrip p) (prem q (pstrip p))) [] with
     | [_] => true | _ => false end.
   Definition squarefree (p : list K) : bool := coprime p (pderiv N (pstrip p)).
 
